@@ -134,12 +134,13 @@ static void head_op(unsigned op) {
 HEAD_H(0, array_start) HEAD_H(1, indef_array) HEAD_H(2, map_start) HEAD_H(3, indef_map) HEAD_H(4, break_)
 HEAD_H(5, bool_) HEAD_H(6, u8) HEAD_H(7, u16) HEAD_H(8, u32) HEAD_H(9, u64) HEAD_H(10, i8) HEAD_H(11, i16) HEAD_H(12, i32) HEAD_H(13, i64)
 
+static unsigned char g_payload[ENC_MAXSTR];
 // ---- string operations ---------------------------------------------------------------------
 // op: 0 bytestring(ptr,n) 1 textstring(ptr,n)
 static void string_op(unsigned op) {
     Ctx c; setup(c);
     CdnsEncoder& e = c.box.e;
-    static unsigned char payload[ENC_MAXSTR];
+    unsigned char* payload = g_payload;
     size_t n = (size_t)vs_range(ENC_MAXSTR);
     for (size_t i = 0; i < ENC_MAXSTR; i++) payload[i] = nondet_u8();
     uint8_t exp[9]; unsigned hl = ref_head(op == 0 ? 0x40 : 0x60, n, exp);
